@@ -1,7 +1,7 @@
 import ChythonModel.Model.C11Mol2000
 /-!
 # C11 — SDF framing: `SDFWrite.write`, `SDFRead._read_block/_read_mol/_read_metadata/read_metadata`,
-`MDLRead.__iter__` (skip on `ValueError`, stop on `EOFError`), `reset_index` (grep) + `seek` + `__getitem__`.
+`MDLRead.__iter__` (skip on `ValueError`/`LookupError`, stop on `EOFError`), `reset_index` (grep) + `seek` + `__getitem__`.
 
 A *file* is the list of its lines (each with its `'\n'`), i.e. what `for line in self._file` yields.
 -/
@@ -155,7 +155,7 @@ def iterate (rs : Block → R ρ) (bufSize : Nat) : Nat → List Str → List ρ
       | .ok r => let (out, e) := iterate rs bufSize fuel rest; (r :: out, e)
       | .error .eof => ([], none)
       | .error e =>
-        if e.isValueError then iterate rs bufSize fuel rest else ([], some e)
+        if e.isSkipped then iterate rs bufSize fuel rest else ([], some e)
 
 /-! ## index -/
 
@@ -163,9 +163,14 @@ def hasInfix (p : Str) : Str → Bool
   | [] => p.isEmpty
   | c :: cs => p.isPrefixOf (c :: cs) || hasInfix p cs
 
-/-- line indices at which records start according to `reset_index`: `grep -bE '\$\$\$\$'` reports every line
-*containing* `$$$$`; a record starts after each such line; the last entry is popped. -/
+/-- line indices at which records start according to `reset_index`: `grep -bE '^\$\$\$\$'` reports every line
+*starting with* `$$$$` (since the `fix:` commit a10377d; before, every line *containing* `$$$$` — `indexStartsOld`);
+a record starts after each such line; the last entry is popped. -/
 def indexStarts (file : List Str) : List Nat :=
+  let hits := (List.range file.length).filter fun i => startsWith (file.getD i []) (sL "$$$$")
+  (0 :: hits.map (· + 1)).dropLast
+
+def indexStartsOld (file : List Str) : List Nat :=
   let hits := (List.range file.length).filter fun i => hasInfix (sL "$$$$") (file.getD i [])
   (0 :: hits.map (· + 1)).dropLast
 
